@@ -10,7 +10,7 @@ import (
 
 func init() {
 	register(&propDef{ID: "C05", Run: runC05,
-		Explain:    "Structural necessary conditions of 'unpinned requests rotate evenly over the backends registered right now', decided on SSA/CFG and must-hold locksets of /repo: (1) lockset: every access to RoundRobinBackend.index, .backends and .backendMap outside the constructor holds the pool mutex, and the mutating/selecting functions take it once at entry and release it only by defer (one critical section per operation); (2) paired-update: AddBackend appends one element, registers it under GetAddress() and notifies HandleBackendAdded(backend, pool), each exactly once on every path; RemoveBackend, when the address is registered, deletes exactly the list element whose GetAddress() equals the argument (delete-one under that equality only), deletes the map entry, closes that element and notifies HandleBackendRemoved, each exactly once, and does nothing otherwise; nobody else writes the three fields; (3) cursor: the only non-constructor store to index is (index + 1) % len(backends) with that length read in the same critical section and guarded > 0, and the advanced value is what getNextBackendIndex returns and what Send passes to the first getBackend; (4) selection: getBackend returns backends[i % n] with n = len(backends) of the same critical section, guarded n > 0; (5) empty: with no backend both helpers return an error and Send returns an error without calling any backend; (6) rotation-stable: outside AddBackend/RemoveBackend nothing may write into the backing array of the rotation (no sort/copy/in-place append on a view of it); (7) owned-socket: every connection a backend's Close() closes was created for that backend alone (fresh net.Dial*/Listen* result kept nowhere else).",
+		Explain:    "Structural necessary conditions of 'unpinned requests rotate evenly over the backends registered right now', decided on SSA/CFG and must-hold locksets of /repo: (1) lockset: every access to RoundRobinBackend.index, .backends and .backendMap outside the constructor holds the pool mutex, and the mutating/selecting functions take it once at entry and release it only by defer (one critical section per operation); (2) paired-update: AddBackend appends one element, registers it under GetAddress() and notifies HandleBackendAdded(backend, pool), each exactly once on every path; RemoveBackend, when the address is registered, deletes exactly the list element whose GetAddress() equals the argument (delete-one under that equality only), deletes the map entry, closes that element and notifies HandleBackendRemoved, each exactly once, and does nothing otherwise; nobody else writes the three fields; (3) cursor: the only non-constructor store to index is (index + 1) % len(backends) with that length read in the same critical section and guarded > 0, and the advanced value is what getNextBackendIndex returns and what Send passes to the first getBackend; (4) selection: getBackend returns backends[i % n] with n = len(backends) of the same critical section, guarded n > 0; (5) empty: with no backend both helpers return an error and Send returns an error without calling any backend; (6) rotation-stable: outside AddBackend/RemoveBackend nothing may write into the backing array of the rotation (no sort/copy/in-place append on a view of it); (7) owned-socket: every connection a backend's Close() closes was created for that backend alone (fresh net.Dial*/Listen* result kept nowhere else). (membership-events, shared with C19): hostIPChanged applies every resolver notification in full - each added address becomes a backend, each vanished one is removed, both walks on every call - since AddBackend appends without looking and RemoveBackend deletes the first match.",
 		NotDecided: "the counts floor(N/k)/ceil(N/k) themselves (they follow arithmetically from 3-4 between membership changes); the window between choosing a backend and writing to it while it is being removed."})
 }
 
@@ -29,6 +29,11 @@ func runC05(c *Ctx) {
 	// "with no backend registered the request is dropped without disturbing the proxy": no index of the pool's own
 	// methods can be out of range, whatever the membership (the prover's obligations, shared with C08)
 	c08PanicsIn(c, "empty", "(*RoundRobinBackend).")
+	// "the current backends": AddBackend appends without looking, RemoveBackend deletes the first match - the rotation
+	// is the current set, each member once, only if every resolver notification is applied in full (added addresses
+	// added, vanished ones removed, on every call). A notification that is dropped leaves duplicates or ghosts behind
+	// when the resolver reports the addresses again (rule "membership-events", shared with C19)
+	c19HostIPChanged(c)
 }
 
 // c05Stable: between membership changes nobody reorders or overwrites the rotation: only AddBackend/RemoveBackend
